@@ -52,7 +52,7 @@ def shards(tier):
     # mutation is applied, then all queries must agree with the new structure
     # (4-node history shards took > 90 min in the thorough tier: bounded at 3,
     # plus the 4-node shapes for the cheapest state-changing operation)
-    for op in HIST_OPS:
+    for op in (["move", "remove"] if tier == "quick" else HIST_OPS):  # quick: the two re-parenting operations
         for sh in shapes_upto(3, 2) + (shapes_upto(4, 4) if (tier != "quick" and op == "remove") else []):
             out.append({"name": "hist-%s-%s" % (op, shape_str(sh)), "kind": "hist", "op": op, "shape": list(sh), "regime": "R1", "cost": 20})
     return out
@@ -115,7 +115,7 @@ def _hist(ctx, desc, x):
     n2 = len(nodes2)
     for i in range(n2):
         for j in range(n2):
-            for flags in range(8) if j == 0 else (0,):
+            for flags in (0, 7) if j == 0 else (0,):  # all flags off / all on (the fresh-tree shards vary them singly)
                 c = _check_pair(tuple(shape2), r.tree, nodes2, i, j, list(range(0, n2 + 3)) if j == 0 else [],
                                 bool(flags & 1), bool(flags & 2), bool(flags & 4))
                 if c:
